@@ -333,7 +333,7 @@ class Engine:
         ctx = self.ctx
         self.nrun += 1
         out = os.path.join(ctx.sub("runs"), "out-%d.ndjson" % self.nrun)
-        e = {"VERIF_C04_OUT": out, "VERIF_WORKERS": "24"}
+        e = {"VERIF_C04_OUT": out, "VERIF_WORKERS": "24", "VERIF_C04_MAXFAIL": "300"}
         e.update(env)
         rc, txt = ctx.run_bin([self.bin, "-test.run", "^%s$" % test, "-test.timeout", "%ds" % timeout],
                               env=e, timeout=timeout + 30)
@@ -374,6 +374,9 @@ class Engine:
         ok = []
         for i, res in enumerate(results):
             prog = progs[i] if progs else None
+            if res.get("skipped"):
+                self.nskipped += 1
+                continue
             if res.get("inconclusive"):
                 # machinery problem of this run only; decided at the end (a
                 # violation established on another run stands)
@@ -574,6 +577,7 @@ def run(ctx):
     eng.flagged = []
     eng.nviol = {}
     eng.inconcl = []
+    eng.nskipped = 0
     eng.ndrift = 0
     eng.saw_get = False
     quick = ctx.quick
@@ -745,6 +749,10 @@ def run(ctx):
     finally:
         th.join()
 
+    if eng.nskipped:
+        ctx.cov["runs_skipped_after_300_failures"] = eng.nskipped
+        if not ctx.violations and not ctx.known_hits:
+            raise vlib.Inconclusive("%d runs skipped but no violation reported" % eng.nskipped)
     if eng.inconcl:
         ctx.cov["inconclusive_runs"] = len(eng.inconcl)
         ctx.note("inconclusive runs: %s" % eng.inconcl[:5])
